@@ -152,10 +152,13 @@ pub enum Op {
     VerifyZeroFirstHalf,
     /// signature whose second half (s / S) is all zero
     VerifyZeroSecondHalf,
+    /// right password on a blob whose header declares 0 passes / iterations (and 4 GiB of memory for k2/k4): fails
+    /// inside the derivation, before any tag is compared
+    PwUnwrapDegenerateCost,
 }
 
 pub const OPS_SCHED: [Op; 9] = [Op::Sign, Op::VerifyGood, Op::VerifyForged, Op::Encrypt, Op::DecryptForged, Op::DecryptCallbacks, Op::CloneDrop, Op::PublicKey, Op::WrapPie];
-pub const OPS_HIST: [Op; 20] = [Op::Sign, Op::VerifyGood, Op::VerifyForged, Op::Encrypt, Op::DecryptGood, Op::DecryptForged, Op::CloneDrop, Op::Id, Op::WrapPie, Op::UnwrapBad, Op::PwUnwrapWrongPassword, Op::UnsealWrongRecipient, Op::Expose, Op::UnwrapGood, Op::PwUnwrapGood, Op::PwUnwrapTamperedCost, Op::UnsealGood, Op::UnsealTampered, Op::VerifyZeroFirstHalf, Op::VerifyZeroSecondHalf];
+pub const OPS_HIST: [Op; 21] = [Op::Sign, Op::VerifyGood, Op::VerifyForged, Op::Encrypt, Op::DecryptGood, Op::DecryptForged, Op::CloneDrop, Op::Id, Op::WrapPie, Op::UnwrapBad, Op::PwUnwrapWrongPassword, Op::UnsealWrongRecipient, Op::Expose, Op::UnwrapGood, Op::PwUnwrapGood, Op::PwUnwrapTamperedCost, Op::UnsealGood, Op::UnsealTampered, Op::VerifyZeroFirstHalf, Op::VerifyZeroSecondHalf, Op::PwUnwrapDegenerateCost];
 /// first uses of a key object that has never been used (cold start), raced pairwise
 pub const OPS_COLD: [Op; 11] = [Op::Sign, Op::VerifyGood, Op::VerifyForged, Op::Encrypt, Op::DecryptGood, Op::CloneDrop, Op::PublicKey, Op::Id, Op::WrapPie, Op::UnsealGood, Op::Expose];
 
@@ -189,6 +192,7 @@ pub struct Fx {
     bad_pie: String,
     pw_blob: String,
     pw_tampered_cost: String,
+    pw_degenerate_cost: String,
     own_seal: String,
     tampered_seal: String,
     foreign_seal: String,
@@ -236,6 +240,14 @@ fn fixtures<V: Full>() -> Arc<Fx> {
             b[27] = 2;
         }
         let pw_tampered_cost = pk::join(&h, &b);
+        let (h, mut b) = pk::split(&pw_blob).unwrap();
+        if V::VER == 1 || V::VER == 3 {
+            b[32..36].copy_from_slice(&0u32.to_be_bytes());
+        } else {
+            b[16..24].copy_from_slice(&(1u64 << 32).to_be_bytes());
+            b[24..28].copy_from_slice(&0u32.to_be_bytes());
+        }
+        let pw_degenerate_cost = pk::join(&h, &b);
         let own_seal = pk::seal::<V>(&ks.locals[0].bytes, &ks.pke[0].1.bytes).unwrap();
         let (h, mut b) = pk::split(&own_seal).unwrap();
         let n = b.len();
@@ -259,6 +271,7 @@ fn fixtures<V: Full>() -> Arc<Fx> {
             bad_pie,
             pw_blob,
             pw_tampered_cost,
+            pw_degenerate_cost,
             own_seal,
             tampered_seal,
             foreign_seal,
@@ -368,6 +381,7 @@ pub fn run_op<V: Full>(op: Op, k: &Shared<V>) -> Res {
             Op::UnwrapGood => Res::Exact(k.good_pie.parse::<paseto_core::paserk::PieWrappedKey<V, Local>>().and_then(|p| p.unwrap(&k.local)).map(|x| hex::encode(keys::key_bytes(&x))).unwrap_or_else(e)),
             Op::PwUnwrapGood => Res::Exact(pk::pw_unwrap::<V, Local>(&k.pw_blob, b"right").map(hex::encode).unwrap_or_else(e)),
             Op::PwUnwrapTamperedCost => Res::Exact(pk::pw_unwrap::<V, Local>(&k.pw_tampered_cost, b"right").map(hex::encode).unwrap_or_else(e)),
+            Op::PwUnwrapDegenerateCost => Res::Exact(pk::pw_unwrap::<V, Local>(&k.pw_degenerate_cost, b"right").map(hex::encode).unwrap_or_else(e)),
             Op::UnsealGood => {
                 let s: paseto_core::paserk::SealedKey<V> = k.own_seal.parse().unwrap();
                 Res::Exact(s.unseal(&k.pke_secret).map(|x| hex::encode(keys::key_bytes(&x))).unwrap_or_else(e))
